@@ -1013,25 +1013,28 @@ package astits
 //@ func newPacketPool
 //@   ensures [C20,C07] new: result != nil && fresh(result) && result.programMap == programMap && result.b != nil && fresh(result.b) && len(result.b) == 0
 
-// Readers (assumed, per the io documentation). rdPos(r) counts the bytes consumed from r, rdFail(r) the calls on r
+// Readers (assumed, per the io documentation; the byte counter does not overflow: fewer than 2^63 bytes are read). rdPos(r) counts the bytes consumed from r, rdFail(r) the calls on r
 // that returned an error other than the end-of-stream conditions io.EOF / io.ErrUnexpectedEOF; both are ghost state indexed by the reader object, so a reader that is also an
 // io.Seeker shares them. Read may return fewer bytes than asked for without an error; ReadFull may not.
 //@ extern (io.Reader).Read
 //@   modifies rdPos(recv), rdFail(recv), elems(p)
-//@   ensures [C08,C18,C20,C03] doc: 0 <= n && n <= len(p) && rdPos(recv) == old(rdPos(recv)) + n
+//@   ensures [C08,C18,C20,C03] doc: 0 <= n && n <= len(p) && rdPos(recv) == old(rdPos(recv)) + n && rdPos(recv) >= old(rdPos(recv))
 //@   ensures [C08,C18,C20,C03] fail: (err != nil && err != io_EOF && err != io_ErrUnexpectedEOF) == (rdFail(recv) != old(rdFail(recv))) && rdFail(recv) >= old(rdFail(recv))
 //@ extern io.ReadFull
 //@   modifies rdPos(r), rdFail(r), rdEnded(r), elems(buf)
-//@   ensures [C08,C18,C20,C03] doc: 0 <= n && n <= len(buf) && rdPos(r) == old(rdPos(r)) + n && (err == nil ==> n == len(buf))
-//@   ensures [C08,C18,C20,C03] eof: (err == io_EOF || err == io_ErrUnexpectedEOF ==> rdEnded(r) != 0) && (err == nil ==> rdEnded(r) == old(rdEnded(r)))
+//@   ensures [C08,C18,C20,C03] doc: 0 <= n && n <= len(buf) && rdPos(r) == old(rdPos(r)) + n && rdPos(r) >= old(rdPos(r)) && (err == nil ==> n == len(buf))
+//@   ensures [C08,C18,C20,C03] eof: (err == io_EOF || err == io_ErrUnexpectedEOF ==> rdEnded(r) != 0) && (err == nil ==> rdEnded(r) == old(rdEnded(r))) && (rdEnded(r) != old(rdEnded(r)) ==> err == io_EOF || err == io_ErrUnexpectedEOF) && (err == io_EOF ==> n == 0) && (err == io_ErrUnexpectedEOF ==> 0 < n && n < len(buf))
 //@   ensures [C08,C18,C20,C03] fail: (err != nil && err != io_EOF && err != io_ErrUnexpectedEOF) == (rdFail(r) != old(rdFail(r))) && rdFail(r) >= old(rdFail(r))
 //@ extern io.ReadAtLeast
 //@   modifies rdPos(r), rdFail(r), elems(buf)
-//@   ensures [C08,C18,C20,C03] doc: 0 <= n && n <= len(buf) && rdPos(r) == old(rdPos(r)) + n && (err == nil ==> n >= min)
+//@   ensures [C08,C18,C20,C03] doc: 0 <= n && n <= len(buf) && rdPos(r) == old(rdPos(r)) + n && rdPos(r) >= old(rdPos(r)) && (err == nil ==> n >= min)
 //@   ensures [C08,C18,C20,C03] fail: (err != nil && err != io_EOF && err != io_ErrUnexpectedEOF) == (rdFail(r) != old(rdFail(r))) && rdFail(r) >= old(rdFail(r))
 // bufio.Reader.Peek consumes nothing.
 //@ extern (*bufio.Reader).Peek
+//@   modifies rdFail(b), rdEnded(b)
 //@   ensures [C08,C18,C20,C03] doc: 0 <= len(result0) && len(result0) <= n && (result1 == nil ==> len(result0) == n) && allocated(result0)
+//@   ensures [C08,C18,C20,C03] fail: (result1 != nil && result1 != io_EOF) == (rdFail(b) != old(rdFail(b))) && rdFail(b) >= old(rdFail(b))
+//@   ensures [C08,C18,C20,C03] eof: (result1 == io_EOF ==> rdEnded(b) != 0) && (result1 == nil ==> rdEnded(b) == old(rdEnded(b)))
 // io.Seeker: seeking to offset 0 from the start reports 0 and puts the reader back at its first byte.
 //@ extern (io.Seeker).Seek
 //@   modifies rdPos(recv), rdFail(recv)
@@ -1051,12 +1054,15 @@ package astits
 // consumed (bufio) or exactly len(b) bytes are - unless the reader failed or the stream ended first.
 //@ func peek
 //@   opt sweep:C03
-//@   requires 0 <= len(b) && len(b) <= cap(b) && len(b) < 0x10000 && allocated(b)
+//@   requires 0 < len(b) && len(b) <= cap(b) && len(b) < 0x10000 && allocated(b)
 //@   modifies rdPos(r), rdFail(r), rdEnded(r), elems(b)
 //@   ensures [C08] bufio: !shouldRewind ==> rdPos(r) == old(rdPos(r))
 //@   ensures [C08] whole: shouldRewind && err == nil ==> rdPos(r) == old(rdPos(r)) + len(b) || rdEnded(r) != 0
 //@   ensures [C18] surfaced: rdFail(r) != old(rdFail(r)) ==> err != nil
 //@   ensures [C18] mono: rdFail(r) >= old(rdFail(r))
+//@   ensures [C03] eos: err != nil && rdFail(r) == old(rdFail(r)) ==> err == io_EOF
+//@   ensures [C03] progress: shouldRewind && err == nil ==> rdPos(r) > old(rdPos(r))
+//@   ensures [C03] ended: err == nil && (!shouldRewind || rdPos(r) == old(rdPos(r)) + len(b)) ==> rdEnded(r) == old(rdEnded(r))
 
 // autoDetectPacketSize: on success the reader is left on a packet boundary (at its first byte, or two whole
 // packets further for a reader that can neither peek nor seek), whatever the size of the reads it serves.
@@ -1070,10 +1076,13 @@ package astits
 //@   ensures [C08] boundary: err == nil ==> rdPos(r) == 0 || rdPos(r) == 2 * packetSize || rdEnded(r) != 0
 //@   ensures [C18] surfaced: rdFail(r) != old(rdFail(r)) ==> err != nil && err != ErrPacketMustStartWithASyncByte
 //@   ensures [C18] mono: rdFail(r) >= old(rdFail(r))
+//@   ensures [C03] eos: err != nil && rdFail(r) == old(rdFail(r)) && rdPos(r) == 0 && rdEnded(r) != 0 && old(rdEnded(r)) == 0 ==> is(err, io_EOF)
 
 //@ func newPacketBuffer
 //@   opt sweep:C03
-//@   requires rdPos(r) == 0
+//@   requires rdPos(r) == 0 && (packetSize == 0 || (188 <= packetSize && packetSize < 0x10000))
+//@   ensures [C03,C08] ok: err == nil ==> pbOK(pb) && pb.r == r
+//@   ensures [C03] eos: err != nil && rdFail(r) == old(rdFail(r)) && rdPos(r) == 0 && rdEnded(r) != 0 && old(rdEnded(r)) == 0 ==> is(err, io_EOF)
 //@   modifies rdPos(r), rdFail(r), rdEnded(r)
 //@   ensures [C08] size: err == nil ==> pb != nil && fresh(pb) && pb.r == r && pb.s == s && pb.packetSize == ite(packetSize == 0, pb.packetSize, packetSize) && (packetSize == 0 ==> 188 <= pb.packetSize && pb.packetSize <= 192) && len(pb.packetReadBuffer) == 0 && pb.packetReadBuffer == nil
 //@   ensures [C08] boundary: err == nil ==> rdPos(r) == 0 || (packetSize == 0 && (rdPos(r) == 2 * pb.packetSize || rdEnded(r) != 0))
@@ -1087,11 +1096,13 @@ package astits
 //@   opt noframe
 //@   opt noloopframe
 //@   requires pb != nil && 188 <= pb.packetSize && pb.packetSize < 0x10000 && 0 <= len(pb.packetReadBuffer) && len(pb.packetReadBuffer) <= cap(pb.packetReadBuffer) && allocated(pb.packetReadBuffer)
-//@   loop 0 invariant [C08,C18,C03,C19] buf: pb != nil && len(pb.packetReadBuffer) == pb.packetSize && pb.packetSize == old(pb.packetSize) && 188 <= pb.packetSize && pb.packetSize < 0x10000 && len(pb.packetReadBuffer) <= cap(pb.packetReadBuffer) && allocated(pb.packetReadBuffer) && pb.r == old(pb.r) && pb.s == old(pb.s) && rdFail(pb.r) == old(rdFail(pb.r))
+//@   loop 0 invariant [C08,C18,C03,C19] buf: pb != nil && len(pb.packetReadBuffer) == pb.packetSize && pb.packetSize == old(pb.packetSize) && 188 <= pb.packetSize && pb.packetSize < 0x10000 && len(pb.packetReadBuffer) <= cap(pb.packetReadBuffer) && allocated(pb.packetReadBuffer) && pb.r == old(pb.r) && pb.s == old(pb.s) && rdFail(pb.r) == old(rdFail(pb.r)) && rdPos(pb.r) >= old(rdPos(pb.r)) && (iter > 0 ==> rdPos(pb.r) > old(rdPos(pb.r))) && (iter == 0 ==> p == nil)
 //@   loop 0 assert [C08] whole: rdPos(pb.r) == pre(rdPos(pb.r)) + pb.packetSize
 //@   at call io.ReadFull#0 assert [C08] whole: len($buf) == pb.packetSize
 //@   ensures [C18] surfaced: rdFail(pb.r) != old(rdFail(pb.r)) ==> err != nil
 //@   ensures [C08,C19] packet: err == nil ==> p != nil
+//@   ensures [C03] eos: err != nil && rdFail(pb.r) == old(rdFail(pb.r)) && rdPos(pb.r) == old(rdPos(pb.r)) ==> err == ErrNoMorePackets
+//@   ensures [C03,C08] keeps: pbOK(pb) && pb.r == old(pb.r)
 
 //@ func (*Demuxer).Rewind
 //@   requires dmx != nil
@@ -1494,3 +1505,21 @@ package astits
 //@   let n0 = old(wN(w))
 //@   ensures [C13,C09,C17] count: wN(w) == n0 + 5 && result0 == 5 && result1 == nil && aligned(w) && wPrefix(w)
 //@   ensures [C13,C09,C17] bytes: be16(wD(w), n0) == h.TableIDExtension && wb(w, n0, 2) == 0xc0 | (h.VersionNumber & 0x1f) << 1 | u8(h.CurrentNextIndicator) && wb(w, n0, 3) == h.SectionNumber && wb(w, n0, 4) == h.LastSectionNumber
+
+// ---------------------------------------------------------------------------
+// demuxer.go: NextPacket
+
+//@ extern (context.Context).Err
+//@   opt pure
+
+// NextPacket keeps the packet buffer usable (never a buffer whose size was not determined), surfaces reader
+// failures, and answers ErrNoMorePackets - not some other error - when the stream has ended and the call consumed
+// nothing: a caller that keeps calling either makes progress through the input or is told the stream is over.
+//@ func (*Demuxer).NextPacket
+//@   opt noframe
+//@   requires dmx != nil && (dmx.packetBuffer == nil ==> rdPos(dmx.r) == 0 && rdEnded(dmx.r) == 0) && (dmx.packetBuffer != nil ==> pbOK(dmx.packetBuffer) && dmx.packetBuffer.r == dmx.r)
+//@   requires dmx.optPacketSize == 0 || (188 <= dmx.optPacketSize && dmx.optPacketSize < 0x10000)
+//@   ensures [C03,C08] pbinv: dmx.packetBuffer != nil ==> pbOK(dmx.packetBuffer) && dmx.packetBuffer.r == dmx.r
+//@   ensures [C18] surfaced: rdFail(dmx.r) != old(rdFail(dmx.r)) ==> err != nil
+//@   ensures [C03] eos: err != nil && retof("(context.Context).Err", 0) == nil && rdEnded(dmx.r) != 0 && rdPos(dmx.r) == old(rdPos(dmx.r)) && rdFail(dmx.r) == old(rdFail(dmx.r)) ==> err == ErrNoMorePackets
+//@   ensures [C19,C08] packet: err == nil ==> p != nil
